@@ -12,7 +12,7 @@ META = {
                    'return of index assignment precedes the first mutation. R13.4 lengte measures strings in characters, arrays in '
                    'elements. R13.5 a non-integer index is a type error before the integer is read. R13.6 no &mut to a payload is live '
                    'while another Object that may alias it is dereferenced.'
-                   ' R13.7 every evaluation of a literal yields its own object (nothing mutable in place leaves the constant pool by reference).',
+                   ' R13.7 every evaluation of a literal yields its own object (nothing mutable in place leaves the constant pool by reference). R13.8 an index (like every immediate) is decoded as an integer only behind a test of its tag.',
     'not_decided': ['the contents of any particular array/string after a sequence of operations'],
 }
 
@@ -70,6 +70,9 @@ def run(ctx, rep):
     rep.rule('R13.7', 'values are shared only by assignment: every evaluation of a literal yields its own object (nothing the VM mutates in place comes out of the constant pool by reference)')
     from rules import c10 as _c10
     _c10.check_pool_by_value(ctx, rep, 'R13.7')
+    rep.rule('R13.8', 'an index is read as an integer only after it was found to be one, on the slow path and on every fast path: a value is decoded only as what it is: every as_int / as_bool / as_function is preceded on every path by a test that the object has that tag (the decoders only shift the word: `ja` would read as 1, null as 0)')
+    from rules import unsafe_inv as _ui
+    _ui.check_immediates(ctx, rep, 'R13.8')
     AL = alloc_reaching(F)
     movers = ['GetLocal', 'SetLocal', 'GetGlobal', 'SetGlobal', 'Const', 'Call', 'Return', 'ReturnValue', 'Pop', 'IndexSet', 'Jump', 'JumpIfFalse']
     for op in movers:
